@@ -123,6 +123,48 @@ def spare_case(case):
     return res
 
 
+def twin_case(case):
+    """a product with ONE numeric field filled with a value of consequence (very large / zero / negative), and its twin with that field blank:
+    the two trees differ at the leaf of that field only -- nothing else is derived from it, blank or filled"""
+    import ceos_alos2
+
+    from harness import imgrun, product, project
+    from harness import layout as L
+
+    f = tuple(case["field"])
+    out = {"case": case, "bad": [], "n": 0}
+    fps = []
+    b0 = product.build_product(level=case["level"], images=(("HH", None, 2, 2),), seed=case["seed"], ctx=case.get("ctx"))
+    fb0 = b0.builders[f[0]]
+    leaf = next(lf for r, rec in enumerate(fb0.inst["records"]) if rec["name"] == f[1] for pth, (off, lf, arr) in fb0.index[r].items() if pth == f[3])
+    w = leaf["w"]
+    if leaf["k"] == "af" and w >= 12:
+        case["filled"] = {"big": "10000000.000", "zero": "0.000", "neg": "-7500000.500"}[case["filled_class"]]
+    elif leaf["k"] == "af":
+        case["filled"] = {"big": "9" * (w - 2) + ".", "zero": "0.", "neg": "-" + "9" * (w - 3) + "."}[case["filled_class"]]
+    else:
+        case["filled"] = {"big": "9" * (w - 1), "zero": "0", "neg": "-" + "9" * max(1, w - 2)}[case["filled_class"]]
+    for blank in (False, True):
+        b = product.build_product(level=case["level"], images=(("HH", None, 2, 2),), seed=case["seed"], ctx=case.get("ctx"),
+                                  overrides=None if blank else {f: case["filled"]}, blank=[f] if blank else None)
+        url = imgrun.put_on_fs(b, "local", f"c20tw_{case['seed']}_{int(blank)}")
+        try:
+            fps.append(project.fingerprint(ceos_alos2.open_alos2(url, backend_options=dict(use_cache=False))))
+        except BaseException as e:  # noqa: B902
+            out["bad"].append(("twin-raises", f"{'blank' if blank else 'filled with ' + case['filled']}: {type(e).__name__}: {str(e)[:120]}"))
+            return out
+        finally:
+            imgrun.drop_from_fs(url, "local")
+    m = L.outmap().get((f[0], f[1], f[3]))
+    names = {f[3].split(".")[-1]} | ({m["n"], m["n"].replace(".", "_")} if m else set())
+    d = project.diff(fps[0], fps[1])
+    out["n"] = 1
+    foreign = [x for x in d if not any(nm in x for nm in names)]
+    if foreign:
+        out["bad"].append(("derived-from-blank", f"{f[1]}.{f[3]} blank instead of {case['filled']!r}: other leaves changed too: {foreign[:3]}"))
+    return out
+
+
 def influence_case(case):
     """worker (thorough): flip bytes lo..hi of one file one at a time; the changed leaves must belong to the field covering the byte"""
     import ceos_alos2
@@ -272,6 +314,20 @@ def body(chk):
             if fld not in seen:
                 seen.add(fld)
                 chk.violation(f"blank-value:{fld}", f"{msg}   [blanked: {c['tag']}]", {"case": c, "src": src})
+    # (a') blank-versus-filled twins: the numeric fields of the map projection record (origins, false northing / easting, parallels, scale
+    #      factors: values other attributes are easily derived from), filled with values of consequence
+    tw = []
+    for di, desig in enumerate(("UTM-PROJECTION", "UPS-PROJECTION", "LCC-PROJECTION", "MER-PROJECTION")):
+        mp = [f for f in nullable_fields("1.5") if f[1] == "map_projection"]
+        for j, f in enumerate(mp):
+            if chk.tier == "quick" and (j + di) % 4:
+                continue
+            for fc in ("big", "zero", "neg"):
+                tw.append(dict(level="1.5", field=list(f), filled_class=fc, ctx=dict(designator=desig), seed=chk.seed + 1200 + j))
+    for res in checklib.pmap(twin_case, tw, chk.scratch, chunksize=4):
+        chk.count(res["n"], f"twin:{res['case']['field'][3]}:{res['case']['filled_class']}:{res['case']['ctx']['designator']}")
+        for key, msg in res["bad"][:1]:
+            chk.violation(f"blank-twin:{key}:{res['case']['field'][3]}", f"[{res['case']['ctx']['designator']}] {msg}", {"case": res["case"]})
     # (b) spare / blank / reserved areas
     sp_cases = []
     for j in range(12 if chk.tier == "quick" else 200):
